@@ -54,8 +54,10 @@ LEVEL_TEXT = (
     "C16_ctrl_write_stall_bound, C16_stall_ends_at_deadline, C16_dropped_at_deadline, C16_unset_* (None, and only None, means "
     "unbounded) and zero-is-zero-seconds everywhere: C16_idle_zero_drops_at_once / C16_idle_zero_release (control reads), "
     "C16_zero_socket_ends_at_greeting / C16_zero_socket_ctrl_immediate (control writes), C16_zero_socket_data_immediate (data "
-    "reads/writes), C16_zero_wait_immediate_425 (data-connection wait). The wiring the theorems speak about is re-derived from "
-    "the regenerated source facts (C16_wiring_pasv/epsv and 9 structural obligations; the pre-repair `X or timeout` shape is "
+    "reads/writes), C16_zero_wait_immediate_425 (data-connection wait); C16_abort_ends_session / "
+    "_after_deadline / _released_by (a failure of the reader task -- undecodable command line, peer closing -- ends the session at "
+    "that instant unless a deadline did before). The wiring the theorems speak about is re-derived from "
+    "the regenerated source facts (C16_wiring_pasv/epsv and 10 structural obligations, among them C16_parse_command_total: parse_command returns a tuple or raises; the pre-repair `X or timeout` shape is "
     "translated to a different wiring, C16_or_shape_differs_at_zero, so a revert breaks the obligation). The tie to behaviour is "
     "sampled: exact agreement of model and real server in VIRTUAL time on the enumerated corpus. Wall-clock promptness "
     "(event-loop latency, OS timers, TCP) is runtime behaviour the model cannot exhibit; the property is therefore PARTIAL: "
@@ -109,6 +111,10 @@ FLOOD = ("flood", 80)  # ... and sends 80 unknown 1000-byte verbs: > 64 KiB of 5
 CRELEASE = ("crelease", None)  # ... and reads again
 DSEND = ("dsend", 1000)
 DEOF = ("deof", None)
+# a command line that is not valid in the server encoding (a latin-1 client): written as latin-1, undecodable as utf-8;
+# parse_command raises UnicodeDecodeError into the dispatcher: the session ends at that instant, by no timeout
+RAW = ("raw", "CWD caf\u00e9")
+CCLOSE = ("cclose", None)  # the peer closes its control connection (parse_command raises ConnectionResetError)
 
 # (gap before the step, step).  Command times are integers or n+1/2 with consecutive command gaps never in
 # {2, 5, 30}; data-channel steps sit on half-integers: no step coincides with a deadline it could race with.
@@ -136,6 +142,13 @@ SCRIPTS = {
     "chatty": [(1, USER), (1, PWD), (1, PWD), (1, PWD), (1, PWD), (1, PWD)],
     "stor_burst": [(1, USER), (1, PASV), (H, DCONN), (H, STOR), (H, DSEND), (H, DSEND), (H, DEOF), (1, PWD)],
     "retr_small": [(1, USER), (1, PASV), (H, DCONN), (H, ("cmd", "RETR a.txt")), (1, PWD), (3, PWD)],
+    # the reader task fails (undecodable line / peer gone), then silence: no reader-less, timer-less session may survive
+    "badline": [(1, USER), (1, PWD), (1, RAW), (1, PWD), (3, PWD)],
+    "badline_first": [(1, RAW), (1, USER)],
+    "badline_xfer": [(1, USER), (1, PASV), (H, DCONN_HOLD), (H, RETR), (1, RAW), (1, PWD)],
+    "badline_wait": [(1, USER), (1, PASV), (1, RETR), (H, RAW), (F(3, 2), PWD)],
+    "peer_leaves": [(1, USER), (1, PWD), (1, CCLOSE)],
+    "peer_leaves_xfer": [(1, USER), (1, PASV), (H, DCONN_HOLD), (H, RETR), (1, CCLOSE)],
 }
 QUICK_ALL_COMBOS = ("login", "login_pwd", "retr_noconn", "retr_hold", "stor", "ctrl_not_reading")
 
@@ -144,7 +157,7 @@ def check_script(name, sc, extra=()):
     t, last = F(0), None
     for gap, (kind, _) in sc:
         t += gap
-        if kind in ("cmd", "flood"):
+        if kind in ("cmd", "flood", "raw"):
             if last is not None and (t - last) in (2, 5, 30) + tuple(extra):
                 raise AssertionError(f"script {name}: command gap {t - last} coincides with a timeout value")
             last = t
@@ -381,6 +394,20 @@ def run_case(script, k, cfg, throttle=None, horizon=HORIZON):
                         data[-1][0].close()
                     events.append(("deof", now, None))
                     await net.settle()
+                elif kind == "raw":
+                    raw = arg.encode("latin-1")
+                    try:
+                        raw.decode("utf-8")
+                        raise AssertionError("raw step must not be valid utf-8")
+                    except UnicodeDecodeError:
+                        pass
+                    w.write(raw + b"\r\n")
+                    events.append(("raw", now, arg))
+                    await net.settle()
+                elif kind == "cclose":
+                    w.close()
+                    events.append(("cclose", now, None))
+                    await net.settle()
             t_stall = F(loop.time())
             await asyncio.sleep(horizon)
             await net.settle()
@@ -547,6 +574,8 @@ def model_events(obs, throttled=False):
             evs.append((t, [4, q(t), q(0), 0]))  # ... and the reply writer blocks at t (peer not reading)
         elif kind == "crelease":
             evs.append((t, [5, q(t), q(0), 0]))
+        elif kind in ("raw", "cclose"):
+            break  # the reader task fails here: run_abort (kill_time)
         elif kind == "dsend" and paced is None:
             evs.append((t, [2, q(t), q(0), 0]))
         elif kind == "deof" and paced is None:
@@ -554,6 +583,14 @@ def model_events(obs, throttled=False):
     if throttled:
         evs.sort(key=lambda x: x[0])  # stable: consumption instants lag behind the peer's sends
     return [e for _, e in evs]
+
+
+def kill_time(obs):
+    """instant of the first peer step that makes the reader task fail (undecodable line / peer closes), or None"""
+    for kind, t, _ in obs["events"]:
+        if kind in ("raw", "cclose"):
+            return t
+    return None
 
 
 def dec_q(x):
@@ -637,7 +674,10 @@ def oracle(obs, cfg, eps=F(0)):
     idle, sock, wf = cfg
     bad = []
     E = obs["eof"]
-    cmds = [(t, a) for kind, t, a in obs["events"] if kind in ("cmd", "flood")]
+    cmds = [(t, a) for kind, t, a in obs["events"] if kind in ("cmd", "flood", "raw")]
+    raws = {t for kind, t, _ in obs["events"] if kind == "raw"}
+    gone = [t for kind, t, _ in obs["events"] if kind == "cclose"]
+    tk = kill_time(obs)
     started, refused = transfers_of(obs, wf)
     # intervals during which the peer does not read its control channel
     blind, h0 = [], None
@@ -686,6 +726,11 @@ def oracle(obs, cfg, eps=F(0)):
             bad.append(("c16-ctrl-write-zero-not-abandoned", f"socket_timeout={sock}: the greeting write is allowed zero seconds, session not closed by {obs['t0'] + eps} (closed at {E})"))
     if cw_upper is not None and (E is None or E > cw_upper):
         bad.append(("c16-ctrl-write-not-abandoned", f"socket_timeout={sock}: reply write blocked by a peer that does not read, session not closed by {cw_upper} (closed at {E})"))
+    # an undecodable command line / the peer closing the control connection may end the session at that instant (a
+    # failure of the reader, not a timeout); if the session goes on instead, every bound goes on applying to it, the
+    # idle bound counted from that line
+    if tk is not None:
+        bounds.append(tk)
     # ---- no release earlier than the earliest applicable bound; none at all without a bound
     if E is not None:
         if not bounds:
@@ -719,8 +764,10 @@ def oracle(obs, cfg, eps=F(0)):
     for t, a in cmds:
         if E is not None and E <= t + eps:
             continue
-        if any(x <= t < y for x, y in blind) or isinstance(a, int):
+        if any(x <= t < y for x, y in blind) or isinstance(a, int) or (gone and t >= gone[0]):
             continue  # the peer is not reading: replies are not observable
+        if t in raws:
+            continue  # no reply is owed to a line that ends the session
         if t + eps >= obs["t_end"]:
             continue  # the allowance reaches beyond the end of the observation
         if not any(t <= rt <= t + eps for rt, _ in obs["replies"]):
@@ -777,7 +824,7 @@ def compare(ctx, name, k, cfg, obs, pred, throttled=False, steps=()):
     pe = pred["ended"][0] if pred["ended"] else None
     o425 = [x for x in obs["r425"] if x != E]
     m425 = [x for x in pred["r425"] if x != pe]
-    blind = any(kind == "chold" for kind, _, _ in obs["events"])
+    blind = any(kind in ("chold", "cclose") for kind, _, _ in obs["events"])  # the peer cannot see the EOF
     if pe != E or o425 != m425 or (not blind and obs["peer_eof"] != E):
         ctx.disagree(
             "session-timing",
@@ -807,11 +854,26 @@ def run_matrix(ctx, cases, throttle=None, eps_of=None, stream="matrix"):
     obs_all = []
     model_in = []
     cases = [c if len(c) == 4 else (c[0], c[1], c[2], SCRIPTS[c[0]]) for c in cases]
+    ran, failed = [], 0
     for name, k, cfg, steps in cases:
-        obs = run_case(steps, k, cfg, throttle=throttle)
+        try:
+            obs = run_case(steps, k, cfg, throttle=throttle)
+        except BaseException as e:  # an exception or a hang (simnet's wall-clock guard) of the implementation is an observation
+            if isinstance(e, KeyboardInterrupt):
+                raise
+            ctx.disagree("run-terminates", {"script": name, "k": k, "cfg": [str(x) for x in cfg], "throttle": throttle,
+                                            "steps": ser_script(steps)}, "the scripted session runs to its horizon", repr(e)[:300])
+            failed += 1
+            if failed >= 3:
+                ctx.notes.append(f"stream {stream}: three sessions did not run to their horizon, rest of the stream skipped")
+                break  # keep the run within its budget (each hang costs the wall-clock guard)
+            continue
+        ran.append((name, k, cfg, steps))
         ctx.traces_impl += 1
         obs_all.append(obs)
-        model_in.append((0, [[oq(cfg[0]), oq(cfg[1]), oq(cfg[2])], q(obs["t0"]), model_events(obs, throttled=bool(throttle))]))
+        mcfg, mev, tk = [oq(cfg[0]), oq(cfg[1]), oq(cfg[2])], model_events(obs, throttled=bool(throttle)), kill_time(obs)
+        model_in.append((0, [mcfg, q(obs["t0"]), mev]) if tk is None else (4, [mcfg, q(obs["t0"]), mev, q(tk)]))
+    cases = ran
     have_model = ctx.exe is not None
     out = ctx.model(model_in) if have_model else [None] * len(model_in)
     xs = []
@@ -823,7 +885,7 @@ def run_matrix(ctx, cases, throttle=None, eps_of=None, stream="matrix"):
         if obs["r425"]:
             ctx.count("outcome:425")
         if pred["ended"]:
-            ctx.count("cause:" + ["idle", "data-io", "ctrl-write", "wait-fail"][pred["ended"][1]])
+            ctx.count("cause:" + ["idle", "data-io", "ctrl-write", "wait-fail", "reader-failed"][pred["ended"][1]])
         if not have_model:
             ctx.count("oracle_only_no_model")
         elif unmodelled(obs, throttle):
